@@ -34,7 +34,9 @@ RULE = ("Hypothesis RuleBasedStateMachine: one generated file (C04 shapes: multi
         ' File-level iterators may be inspected one step late (chunk k looked at after chunk k+1 was requested).'
         ' Model-free jobs compare every operation of a short history with the same operation on a freshly opened file '
         '(files with an incomplete final chunk, scaled channels) and read delivered chunk objects repeatedly (every '
-        'scale type x 3 raw types).')
+        'scale type x 3 raw types).'
+        ' Files get raw-data-only continuation segments in either byte order; a model-free job also runs every '
+        "operation twice on a data file that sits next to another file's index.")
 ASSUMPTIONS = [
     "single-threaded histories only (documented: open files are not thread-safe)",
     "canonical chunk sequences come from a fresh TdmsFile.open of the same bytes and are themselves checked against the "
